@@ -337,6 +337,7 @@ func C18(c *Ctx) {
 	commitAllOrNothing(c, "K1.commit-refused-before-any-write")
 	committedLockLeftover(c, "K1.interrupted-commit-is-committed")
 	rollbackKeepsForeignCommit(c, "K1.rollback-keeps-foreign-commit")
+	lockLifetimeGuards(c, "K1.lock-keeps-its-promises")
 	const r1 = "K8.rollback-record-excluded"
 	c.Rule(r1, "every use of Reader.GetWriteByStartTs (Commit, commitKey, rollbackKey, CheckTxnStatus) compares the found write's Kind with Mutation_Rollback before treating it as evidence of a commit (before any path that reports success / a commit version)")
 	ops := opConsts(c)
@@ -779,6 +780,7 @@ func C19(c *Ctx) {
 		below, atOrAbove, n := minCommitReach(c, fn, Named("NoKV.(*DB).SetVersionedEntry", "NoKV.(*DB).DeleteVersionedEntry"))
 		c.Decide(!below && atOrAbove, r2, key(fn, "MinCommitTs>commitVersion→error"), fn.Pos(), n, "a commit below the lock's minimum commit ts is refused", "commitKey does not refuse commitVersion < lock.MinCommitTs")
 	}
+	lockLifetimeGuards(c, "K1.lock-keeps-its-promises")
 	const r2c = "K2.rollback-removes-own-lock-only"
 	c.Rule(r2c, "rollbackKey removes the lock column entry only on the true edge of `lock.Ts == startTs` (the lock read with Reader.GetLock belongs to the transaction being rolled back); isLockExpired refuses to add Ts and TTL when the sum overflows uint64 (such a lock never expires)")
 	if fn := c.Fn("percolator", "rollbackKey"); fn != nil {
@@ -1594,5 +1596,185 @@ func rollbackKeepsForeignCommit(c *Ctx, rule string) {
 		}
 		c.Decide(pre && len(probes) > 0 && skippable, rule, key(fn, fmt.Sprintf("marker[%d]<-probe(CFWrite@startTs)", i+1)), m.Pos(), n+1, "the slot the marker goes to is inspected first, and a foreign commit record there is kept",
 			"rollbackKey writes the rollback marker at (key, startTs) without looking at what is stored at that version: a commit record of another transaction whose commit version equals this start version is overwritten – a committed transaction vanishes (its value reads as not found, CheckTxnStatus no longer reports its commit)")
+	}
+}
+
+// lockLifetimeGuards (C18, C19): two promises a lock makes while it lives.  (a) A minimum commit
+// ts pushed by CheckTxnStatus for a reader survives a repeated Prewrite of the same transaction
+// (RPC / raft retry): the lock that prewriteMutation writes keeps the larger of the stored and the
+// requested MinCommitTs, or a prewrite that finds its own lock writes no lock at all.  (b) No lock
+// is turned into a commit record below its start version, whichever request asks for it (Commit
+// and ResolveLock): such a record is never found again by Reader.GetWriteByStartTs, so the
+// committed transaction could still be rolled back.
+func lockLifetimeGuards(c *Ctx, rule string) {
+	c.Rule(rule, "percolator.prewriteMutation stores into Lock.MinCommitTs max(request, stored lock) – builtin max, or a value that takes the stored lock's MinCommitTs exactly when it is larger (order-sign evaluation) – unless the lock write is unreachable once GetLock found a lock; commitKey reaches no write when commitVersion < lock.Ts, or each of its callers refuses CommitVersion < StartVersion before calling it")
+	cfLock := cfValue(c, "CFLock")
+	if fn := c.Fn("percolator", "prewriteMutation"); fn != nil {
+		isOld := func(v ssa.Value) bool { return isFieldLoad(v, "percolator.Lock", "MinCommitTs") }
+		isNew := func(v ssa.Value) bool {
+			if isFieldLoad(v, "pb.PrewriteRequest", "MinCommitTs") {
+				return true
+			}
+			call, ok := Unwrap(v).(*ssa.Call)
+			return ok && Named("(*pb.PrewriteRequest).GetMinCommitTs")(call.Common())
+		}
+		role := func(v ssa.Value) string {
+			switch {
+			case isOld(v):
+				return "old"
+			case isNew(v):
+				return "new"
+			}
+			return ""
+		}
+		var lockWrites []ssa.Instruction
+		for _, w := range Calls(fn, false, Named("NoKV.(*DB).SetVersionedEntry")) {
+			if cf, ok := ConstInt(w.Common().Args[1]); ok && cf == cfLock {
+				lockWrites = append(lockWrites, w.(ssa.Instruction))
+			}
+		}
+		c.Floor(rule, len(lockWrites), 1, "lock column writes in prewriteMutation")
+		// duplicate prewrite returns before writing a lock?
+		dupSkips := len(lockWrites) > 0
+		var lockVal ssa.Value
+		for _, g := range Calls(fn, false, Named("percolator.(*Reader).GetLock")) {
+			for _, r := range *g.Value().Referrers() {
+				if ex, ok := r.(*ssa.Extract); ok && ex.Index == 0 {
+					lockVal = ex
+				}
+			}
+		}
+		if lockVal == nil {
+			dupSkips = false
+		} else {
+			for _, e := range NilEdges(fn, map[ssa.Value]bool{lockVal: true}) {
+				for _, w := range lockWrites {
+					if reach, _ := reachFromBlock(fn, e.NonNil[1], w, nil); reach {
+						dupSkips = false
+					}
+				}
+			}
+		}
+		keeps, n := false, 0
+		for _, st := range fieldStoresIn(fn, false, "percolator.Lock", "MinCommitTs") {
+			sv, ok := st.(*ssa.Store)
+			if !ok {
+				continue
+			}
+			n++
+			switch v := Unwrap(sv.Val).(type) {
+			case *ssa.Call:
+				if bi, ok := v.Call.Value.(*ssa.Builtin); ok && bi.Name() == "max" {
+					for _, a := range v.Call.Args {
+						if isOld(a) {
+							keeps = true
+						}
+					}
+				}
+			case *ssa.Phi:
+				for i, e := range v.Edges {
+					if !isOld(e) {
+						continue
+					}
+					pred := v.Block().Preds[i]
+					if len(pred.Instrs) == 0 {
+						continue
+					}
+					reach := func(sg int) bool {
+						signs := map[string]int{}
+						SetSign(signs, "old", "new", sg)
+						return (&SignEnv{Role: role, Signs: signs, Depth: 1}).Reaches(fn, pred.Instrs[0])
+					}
+					if reach(1) && !reach(-1) {
+						keeps = true
+					}
+				}
+			}
+		}
+		c.Decide(dupSkips || keeps, rule, key(fn, "lock.MinCommitTs#keeps-pushed-value"), fn.Pos(), n+2,
+			ifs(dupSkips, "a prewrite that finds a lock writes no lock", "the lock keeps the larger of the stored and the requested minimum commit ts"),
+			"prewriteMutation rebuilds the lock of its own transaction from the request alone: a repeated Prewrite resets a MinCommitTs that CheckTxnStatus pushed for a reader, and the transaction can then commit below the version that reader was promised not to see it at")
+	}
+	if fn := c.Fn("percolator", "commitKey"); fn != nil {
+		var cv ssa.Value
+		for _, p := range fn.Params {
+			if strings.EqualFold(p.Name(), "commitVersion") || strings.EqualFold(p.Name(), "commitTs") {
+				cv = p
+			}
+		}
+		if cv == nil && len(fn.Params) > 0 {
+			cv = fn.Params[len(fn.Params)-1]
+		}
+		role := func(v ssa.Value) string {
+			if Unwrap(v) == cv {
+				return "cv"
+			}
+			if isFieldLoad(v, "percolator.Lock", "Ts") {
+				return "start"
+			}
+			return ""
+		}
+		writes := effectSites(c, fn, func(ci ssa.CallInstruction) bool {
+			return Named("NoKV.(*DB).SetVersionedEntry", "NoKV.(*DB).DeleteVersionedEntry")(ci.Common())
+		}, 1)
+		reach := func(sg int) bool {
+			signs := map[string]int{}
+			SetSign(signs, "cv", "start", sg)
+			env := &SignEnv{Role: role, Signs: signs, Depth: 1}
+			for _, w := range writes {
+				if env.Reaches(fn, w.(ssa.Instruction)) {
+					return true
+				}
+			}
+			return false
+		}
+		inKey := !reach(-1) && reach(0) && reach(1)
+		// otherwise every caller refuses CommitVersion < StartVersion before the call
+		callers, guarded := 0, 0
+		var open []string
+		for _, cs := range c.P.CallersOf(fn) {
+			if cs.Site == nil {
+				continue
+			}
+			callers++
+			g := Root(cs.Caller)
+			rrole := func(v ssa.Value) string {
+				v = Unwrap(v)
+				if call, ok := v.(*ssa.Call); ok {
+					if o := CalleeObj(call.Common()); o != nil {
+						switch o.Name() {
+						case "GetCommitVersion":
+							return "cv"
+						case "GetStartVersion":
+							return "start"
+						}
+					}
+				}
+				if _, f, ok := FieldOf(v); ok {
+					_ = f
+				}
+				if u, ok := v.(*ssa.UnOp); ok && u.Op == token.MUL {
+					if _, f, ok := FieldOf(u.X); ok {
+						switch f {
+						case "CommitVersion":
+							return "cv"
+						case "StartVersion":
+							return "start"
+						}
+					}
+				}
+				return ""
+			}
+			signs := map[string]int{}
+			SetSign(signs, "cv", "start", -1)
+			if !(&SignEnv{Role: rrole, Signs: signs, Depth: 1}).Reaches(g, cs.Site.(ssa.Instruction)) {
+				guarded++
+			} else {
+				open = append(open, FuncName(g))
+			}
+		}
+		c.Decide(inKey || callers > 0 && guarded == callers, rule, key(fn, "commitVersion<lock.Ts→no-write"), fn.Pos(), 4+callers,
+			ifs(inKey, "commitKey refuses a commit version below the lock's start version before any write", "every caller refuses CommitVersion < StartVersion before calling commitKey"),
+			"a lock can be turned into a commit record below its start version (unguarded in commitKey and in "+strings.Join(open, ", ")+"): Reader.GetWriteByStartTs never finds that record again, so CheckTxnStatus later rolls the committed transaction back")
 	}
 }
